@@ -12,10 +12,13 @@
 (*   - subscribe / unsubscribe / shrink cannot take effect while another   *)
 (*     thread's delivery is in progress                                    *)
 (*   - exists() / depth() return what the tree says at their Lin           *)
+(*   - unsubscribe() through a stale handle (the one-shot observer it      *)
+(*     belonged to has fired and is gone) changes nothing and throws       *)
+(*     (res = -1); otherwise it returns normally (res = 0)                 *)
 (* Events: OpCall(t, op, p, id, v), OpRet(t, res), CbEnter(t, id, v),      *)
 (* CbExit(t, id); Deadlock / Crash are never enabled.                      *)
 (***************************************************************************)
-EXTENDS RouterOps, TLC, Json, IOUtils
+EXTENDS RouterOps, Integers, TLC, Json, IOUtils
 VARIABLES x, l, nodes, subj, obs, phase, cop, D, cur, expRes
 vars == <<x, l, nodes, subj, obs, phase, cop, D, cur, expRes>>
 Ev == ndJsonDeserialize(IOEnv.TRACE_EVENTS)
@@ -43,15 +46,20 @@ TOpCall == /\ Is("OpCall") /\ phase[E.t] = "idle"
 Lin(t) ==
     /\ phase[t] = "called"
     /\ LET o == cop[t] IN
-       CASE o.op = "subscribe" ->
+       CASE o.op \in {"subscribe", "subscribe1"} ->
               /\ Quiet(t)
               /\ nodes' = nodes \cup Prefixes(o.p) /\ subj' = subj \cup {o.p}
-              /\ obs' = Append(obs, [id |-> o.id, key |-> o.p, valid |-> TRUE])
+              /\ obs' = Append(obs, [id |-> o.id, key |-> o.p, valid |-> TRUE, once |-> (o.op = "subscribe1")])
               /\ UNCHANGED <<D, expRes>>
-         [] o.op = "unsubscribe" ->
-              /\ Quiet(t) /\ o.id \in Ids(obs)
+         [] o.op = "unsubscribe" /\ o.id \in Ids(obs) ->
+              /\ Quiet(t)
               /\ obs' = SelectSeq(obs, LAMBDA e : e.id # o.id)
-              /\ UNCHANGED <<nodes, subj, D, expRes>>
+              /\ expRes' = [expRes EXCEPT ![t] = 0]
+              /\ UNCHANGED <<nodes, subj, D>>
+         [] o.op = "unsubscribe" /\ o.id \notin Ids(obs) ->
+              \* a stale handle (its one-shot observer has fired and is gone): nothing changes, the call throws
+              /\ expRes' = [expRes EXCEPT ![t] = -1]
+              /\ UNCHANGED <<nodes, subj, obs, D>>
          [] o.op = "shrink" ->
               /\ Quiet(t)
               /\ nodes' = Visit(nodes, obs, o.p, <<>>, 0)
@@ -74,11 +82,14 @@ TCbEnter == /\ Is("CbEnter") /\ phase[E.t] = "linned" /\ cop[E.t].op = "notify"
             /\ cur[E.t] = 0 /\ E.id \in D[E.t] /\ E.v = cop[E.t].v
             /\ cur' = [cur EXCEPT ![E.t] = E.id] /\ D' = [D EXCEPT ![E.t] = @ \ {E.id}]
             /\ Adv /\ UNCHANGED <<nodes, subj, obs, phase, cop, expRes>>
+\* a one-shot observer (subscribe1) invalidates itself in its first delivery and is removed when that callback returns
+OneShot(id) == \E i \in 1..Len(obs) : obs[i].id = id /\ obs[i].once
 TCbExit == /\ Is("CbExit") /\ cur[E.t] = E.id /\ E.id # 0
            /\ cur' = [cur EXCEPT ![E.t] = 0]
-           /\ Adv /\ UNCHANGED <<nodes, subj, obs, phase, cop, D, expRes>>
+           /\ obs' = IF OneShot(E.id) THEN SelectSeq(obs, LAMBDA e : e.id # E.id) ELSE obs
+           /\ Adv /\ UNCHANGED <<nodes, subj, phase, cop, D, expRes>>
 TOpRet == /\ Is("OpRet") /\ phase[E.t] = "linned" /\ D[E.t] = {} /\ cur[E.t] = 0
-          /\ cop[E.t].op \in {"notify", "exists", "depth"} => E.res = expRes[E.t]
+          /\ cop[E.t].op \in {"notify", "exists", "depth", "unsubscribe"} => E.res = expRes[E.t]
           /\ phase' = [phase EXCEPT ![E.t] = "idle"]
           /\ Adv /\ UNCHANGED <<nodes, subj, obs, cop, D, cur, expRes>>
 
